@@ -188,10 +188,13 @@ func c05Explore(src *choice.Src) *core.Result {
 			}
 		}
 	}
-	// slow readers: data arrives in small pieces
+	// slow readers: data arrives in small pieces; some readers return the last piece together with io.EOF
 	for _, f := range t.files {
 		if src.Bool(1, 8) {
 			f.chunk = 1 + src.Intn(7)
+		}
+		if src.Bool(1, 6) {
+			f.eofWithData = true
 		}
 	}
 	list := t.list()
